@@ -470,6 +470,25 @@ def D17():
     return f
 
 
+def D18():
+    """C19: info -sf FILE ROOT for a file of a nested history printed nothing (only the root history was searched)"""
+    f = []
+    with tempdir() as d:
+        r = _root(d)
+        mk(r, {"clip.mov": "root clip", "A/clip.mov": "nested clip", "A/only.mov": "only"})
+        run("create", [os.path.join(r, "A"), "-h", "md5"], NOW)
+        run("create", [r, "-h", "sha1"], "2026-03-01 12:00:07")
+        x = run("info", [r, "-sf", os.path.join(r, "A", "only.mov")], NOW)
+        lines = [l for l in x.out.splitlines() if "Generation" in l]
+        # recorded in the nested history A: generation 1 md5 original, generation 2 md5 + sha1 verified
+        if x.exit != 0 or len(lines) != 3 or "original" not in lines[0]:
+            f.append(f"info -sf A/only.mov ROOT prints {len(lines)} digest lines (exit {x.exit}); its nearest enclosing history A records 3")
+        x = run("info", [r, "-sf", os.path.join(r, "A", "clip.mov")], NOW)
+        if rt.digest("sha1", b"root clip") in x.out or rt.digest("md5", b"nested clip") not in x.out:
+            f.append("info -sf A/clip.mov ROOT does not print the digests recorded for that file in history A")
+    return f
+
+
 def _safe(fn):
     def g():
         try:
